@@ -1009,9 +1009,16 @@ def build_fortran_definition(
             variable = f"solved_values({variables_to_numbers[match[1]]}, {match[2].replace('t', 'index')})"
             code = code[:start] + variable + code[end:]
 
-        # Mark decimal literals as double precision (a bare `0.1` is a
-        # single-precision constant in Fortran but a double in Python)
-        code = re.sub(r'(?<![\w.])(\d+\.\d*|\.\d+)(?![\w.])', r'\1d0', code)
+        # Mark numeric literals as double precision, to denote the same
+        # numbers as in Python: a bare `0.1` is a single-precision constant
+        # in Fortran, `1 / 2` is integer division and `max(2, x)` does not
+        # compile (leave the array subscripts alone)
+        code = ''.join(
+            part
+            if part.startswith('solved_values(')
+            else re.sub(r'(?<![\w.])(\d+\.\d*|\.\d+|\d+)(?![\w.])', r'\1d0', part)
+            for part in re.split(r'(solved_values\(.*?\))', code)
+        )
 
         block = f'! {equation}\n' + '  &\n&  '.join(
             textwrap.wrap(code, width=wrap_width)
